@@ -22,6 +22,8 @@ type histParams struct {
 	Boot   string   `json:"boot"` // "cold" | "synced"
 	Events []string `json:"events"`
 	Drain  bool     `json:"drain"`
+	Tx     bool     `json:"tx"`     // transaction universe + subscription
+	Live   bool     `json:"live"`   // C07 liveness phase at the end
 }
 
 // bootSync drives a freshly started node until it has converged to the peer's chain and told
@@ -62,7 +64,7 @@ func (w *World) applyEvent(ev string) bool {
 		if len(p) > 1 {
 			k, _ = strconv.Atoi(p[1])
 		}
-		if !w.Answer(w.P, k) {
+		if !w.answerTrusted(k) {
 			return false
 		}
 		w.settle()
@@ -77,6 +79,7 @@ func (w *World) applyEvent(ev string) bool {
 		if !w.Reorg(d, n) {
 			return false
 		}
+		w.everReorged, w.lastUnsync = true, w.S.Now
 		w.Announce(w.P)
 		w.settle()
 	case "back":
@@ -84,6 +87,7 @@ func (w *World) applyEvent(ev string) bool {
 		if !w.Back(k) {
 			return false
 		}
+		w.everReorged, w.lastUnsync = true, w.S.Now
 		w.Announce(w.P)
 		w.settle()
 	case "ping":
@@ -105,23 +109,43 @@ func (w *World) applyEvent(ev string) bool {
 			return false
 		}
 		w.P.conn.Close()
+		w.lastUnsync = w.S.Now
+		w.restarts = append(w.restarts, w.S.Now)
 		w.settle()
 	case "restart":
+		w.restarts = append(w.restarts, w.S.Now)
 		w.CleanRestart()
-	case "settle":
-		// macro event: the peer answers what is outstanding, announces, pings; short clock steps
-		for i := 0; i < 12; i++ {
-			w.answerRound()
-			w.Announce(w.P)
-			w.settle()
-			w.pingNode()
-			w.Tick(300 * time.Millisecond)
-			if ok, _ := w.Converged(); ok && (w.P == nil || len(w.P.pending) == 0) {
-				break
+		w.lastUnsync = w.S.Now
+		if len(p) == 1 {
+			w.settleMacro() // "restart" brings the node back in sync; "restart:raw" does not
+			w.lastUnsync = w.S.Now
+		}
+	case "crash":
+		// the process dies: every thread of the node is abandoned, a new node starts on the store
+		w.S.KillAll(true)
+		w.P = nil
+		for _, a := range untrustedAddrs {
+			if pc := w.U[a]; pc != nil {
+				w.U[a] = &peerConn{addr: a, announced: map[string]int64{}}
 			}
 		}
+		w.restarts = append(w.restarts, w.S.Now)
+		w.crashes = append(w.crashes, w.S.Now)
+		w.StartNode()
+		w.settle()
+		w.lastUnsync = w.S.Now
+		if len(p) == 1 {
+			w.settleMacro()
+			w.lastUnsync = w.S.Now
+		}
+	case "settle":
+		w.settleMacro()
 	default:
-		panic("unknown event " + ev)
+		handled, ok := w.applyTxEvent(p)
+		if !handled {
+			panic("unknown event " + ev)
+		}
+		return ok
 	}
 	return true
 }
@@ -282,6 +306,13 @@ func runHist(p histParams, hist []string, withDrain bool) *histRun {
 			w.inSyncClause()
 		}
 	}
+	if p.Tx {
+		w.SetupTxUniverse()
+		w.cfg.Subscribe = [][]byte{subKey[:]}
+	}
+	if p.Cfg.Untrusted > 0 {
+		w.SetupUntrusted(p.Cfg.Untrusted)
+	}
 	w.StartNode()
 	w.settle()
 	if p.Boot == "synced" {
@@ -289,6 +320,10 @@ func runHist(p histParams, hist []string, withDrain bool) *histRun {
 			ok, why := w.Converged()
 			w.fail(p.Prop, "boot-sync", "initial sync with a well-behaved peer", fmt.Sprintf("node did not reach in-sync on a fresh store (converged=%v %s)", ok, why))
 		}
+		if p.Cfg.Untrusted > 0 && len(w.viol) == 0 && !w.bootUntrusted() {
+			w.fail(p.Prop, "boot-untrusted", "untrusted peers on the same chain get verified", fmt.Sprintf("only %d of %d untrusted peers became ready", w.untrustedReady(), p.Cfg.Untrusted))
+		}
+		w.lastUnsync = w.S.Now
 	}
 	for _, ev := range hist {
 		if len(w.viol) > 0 || w.livelock || len(w.S.Panics()) > 0 {
@@ -296,10 +331,17 @@ func runHist(p histParams, hist []string, withDrain bool) *histRun {
 		}
 		w.applyEvent(ev)
 		w.chainInvariants("C02")
+		if p.Tx {
+			w.oracleFlags(false)
+		}
 	}
 	w.PanicViolations(p.Prop)
 	if len(w.viol) == 0 {
-		r.key = w.Key("")
+		extra := ""
+		if p.Tx {
+			extra = w.txMonitorKey()
+		}
+		r.key = w.Key(extra)
 		for _, ev := range p.Events {
 			if w.eventEnabled(ev) {
 				r.enabled = append(r.enabled, ev)
@@ -314,6 +356,9 @@ func runHist(p histParams, hist []string, withDrain bool) *histRun {
 					fmt.Sprintf("after the history and a fair drain (answers, pings, clock incl. 61 s and 601 s time-outs) the node has not converged: %s; node tip %d, peer tip %d", why, w.Node.LastHeight(ctx), len(w.Best)-1))
 			}
 			w.chainInvariants("C02")
+		}
+		if p.Tx {
+			w.txFinal(p.Live)
 		}
 	}
 	ctx := core.Ctx()
@@ -350,6 +395,12 @@ func (w *World) eventEnabled(ev string) bool {
 		return w.P != nil && w.P.conn != nil && !w.P.conn.IsClosed()
 	case "dup":
 		return w.P != nil && len(w.P.sentLog) > 0
+	case "inv", "tx", "uping":
+		pc := w.connOf(p[1])
+		return pc != nil && pc.conn != nil && !pc.conn.IsClosed() && !pc.conn.Peer.IsClosed()
+	case "uans":
+		pc := w.connOf(p[1])
+		return pc != nil && len(pc.pending) > 0
 	}
 	return true
 }
@@ -390,7 +441,117 @@ func (w *World) answerRound() {
 	}
 	n := len(w.P.pending)
 	for i := 0; i < n && w.P != nil && len(w.P.pending) > 0; i++ {
-		w.Answer(w.P, 0)
+		w.answerTrusted(0)
 		w.settle()
+	}
+}
+
+// txFinal: let queued work finish (short ticks with peer activity), then evaluate the tx oracles.
+func (w *World) txFinal(live bool) {
+	for i := 0; i < 3; i++ {
+		w.pingAll()
+		w.Tick(150 * time.Millisecond)
+	}
+	w.PanicViolations("C03")
+	if len(w.viol) > 0 {
+		return
+	}
+	w.oracleDelivery()
+	w.oracleFlags(true)
+	w.oracleRequests()
+	if live {
+		w.safeLiveness()
+	}
+	w.storedCopies()
+}
+
+func (w *World) pingAll() {
+	w.pingNode()
+	for _, a := range untrustedAddrs {
+		if pc := w.U[a]; pc != nil && pc.conn != nil && !pc.conn.IsClosed() && !pc.conn.Peer.IsClosed() {
+			w.send(pc, wire.NewMsgPing(5))
+			w.settle()
+		}
+	}
+}
+
+// safeLiveness (C07): when the conditions hold and the node stays in sync, safe is reported
+// within delay + two poll periods.
+func (w *World) safeLiveness() {
+	delay := time.Duration(w.cfg.SafeDelayMS) * time.Millisecond
+	begin := w.S.Now
+	for w.S.Now-begin < int64(delay+500*time.Millisecond) {
+		w.pingAll()
+		w.Tick(200 * time.Millisecond)
+	}
+	if !w.stayedReady(begin) || !w.Node.IsReady(core.Ctx()) {
+		return
+	}
+	tr := w.tracks(0)
+	for _, n := range w.txOrder {
+		t := tr[n]
+		if t == nil || t.newCount == 0 || !w.relevant(n) || w.minedIn(n) != nil {
+			continue
+		}
+		if t.gens[0] != w.nodeGen {
+			continue
+		}
+		vouched, local := false, false
+		for _, a := range w.arrivals[n] {
+			if a.src == "T" && a.ready {
+				vouched = true
+			}
+			if a.src == "local" {
+				local = true
+			}
+		}
+		if !vouched || local || w.anyConflictArrived(n) {
+			continue
+		}
+		safe, unsafe := false, false
+		for _, s := range t.states {
+			if s.Safe {
+				safe = true
+			}
+			if s.UnSafe {
+				unsafe = true
+			}
+		}
+		if !safe && !unsafe {
+			w.fail("C07", "safe-eventually", "vouched conflict-free tx never reported safe", fmt.Sprintf("tx %s was announced by the trusted peer, has no known conflict, the node stayed in sync for %d ms beyond the delay, but no safe report was sent", n, 500))
+		}
+	}
+}
+
+// storedCopies (C11): every delivered tx can be fetched back and equals what handlers got.
+func (w *World) storedCopies() {
+	ctx := core.Ctx()
+	for n, t := range w.tracks(0) {
+		if t.tx == nil || strings.HasPrefix(n, "?") {
+			continue
+		}
+		got, err := w.Node.GetTx(ctx, *w.Txs[n].TxHash())
+		if err != nil || got == nil {
+			w.fail("C11", "stored-copy-fetchable", "delivered tx cannot be fetched back", fmt.Sprintf("GetTx(%s) failed: %v", n, err))
+			continue
+		}
+		if *got.TxHash() != *t.tx.Tx.TxHash() {
+			w.fail("C11", "stored-copy-equal", "stored tx differs from the delivered one", "tx "+n)
+		}
+	}
+}
+
+// settleMacro: the peer answers what is outstanding, announces, pings; short clock steps, until
+// the node has converged and is in sync (at most 12 rounds).
+func (w *World) settleMacro() {
+	for i := 0; i < 12; i++ {
+		w.answerRound()
+		w.Announce(w.P)
+		w.settle()
+		w.pingAll()
+		w.Tick(300 * time.Millisecond)
+		if ok, _ := w.Converged(); ok && (w.P == nil || len(w.P.pending) == 0) && w.Node.IsReady(core.Ctx()) {
+			break
+		}
 	}
 }
